@@ -17,7 +17,7 @@ impl ProgProperty for C17 {
         "fault_enumeration"
     }
     fn rule(&self) -> String {
-        "roaming / structured programs (halting canonical run) x input x width x back end x level; the run is first executed under the guard-page allocator without failure to count its allocations, then again with one request refused (returns null): the k-th zero-initialised allocation (tape and interpreter-context requests; k drawn over all of them, or every k in the thorough tier for programs with <= 12 such requests) or, for a quarter of the cases, the k-th allocation of any kind. Oracle on how the child process ends: SIGABRT (allocation-failure abort) or a Rust panic = pass; SIGSEGV/SIGBUS/SIGILL = violation; a normal return after the refusal is a violation unless the log is the complete canonical sequence (the failure was then evidently handled without harm, e.g. by a successful retry); the events logged before the end must be a canonical prefix. Non-trivial: the refused request is a tape re-allocation (an older non-empty tape exists); distinct = distinct (program, input, width, back end, level, k)".into()
+        "roaming / structured programs (halting canonical run) x input x width x back end x level x {fresh context, context that already owns a small tape}; the run is first executed under the guard-page allocator without failure to count its allocations, then again with one request refused (returns null): the k-th zero-initialised allocation (tape and interpreter-context requests; k drawn over all of them, or every k in the thorough tier for programs with <= 12 such requests) or, for a quarter of the cases, the k-th allocation of any kind. Oracle on how the child process ends: SIGABRT (allocation-failure abort) or a Rust panic = pass; SIGSEGV/SIGBUS/SIGILL, or a second free of a tape block (a stale owner; detected by the allocator) = violation; a normal return after the refusal is a violation unless the log is the complete canonical sequence (the failure was then evidently handled without harm, e.g. by a successful retry); the events logged before the end must be a canonical prefix. Non-trivial: the refused request is a tape re-allocation (an older non-empty tape exists); distinct = distinct (program, input, width, back end, level, k)".into()
     }
     fn assumptions(&self) -> Vec<String> {
         vec!["the guard-page allocator unmaps freed blocks and fences live ones, so touching a null, stale or foreign tape faults instead of passing silently".into()]
@@ -38,7 +38,8 @@ impl ProgProperty for C17 {
         let backend = [Backend::Inplace, Backend::Ir, Backend::Bc, Backend::Jit][(sel.d % 4) as usize];
         let any = sel.c % 4 == 0;
         let alloc = Alloc { mode: 1 + (sel.a % 3) as u8, fail_zeroed_at: if any { None } else { Some(sel.b) }, fail_any_at: if any { Some(sel.b) } else { None } };
-        vec![RunCfg { alloc, ..RunCfg::plain(backend, sel.level.min(3)) }]
+        // a third of the cases start with a context that already owns a (guarded) tape
+        vec![RunCfg { alloc, pre_tape: sel.c % 3 == 1, ..RunCfg::plain(backend, sel.level.min(3)) }]
     }
     fn nontrivial(&self, _c: &ProgCase, _r: &RefRun, _obs: &[Option<Obs>], _stats: &mut Stats) -> bool {
         false
@@ -89,6 +90,12 @@ impl ProgProperty for C17 {
                 }
             };
             stats.class(if zeroed { "refused:zeroed" } else { "refused:any-kind" });
+            if fc.pre_tape {
+                stats.class("context-owned-a-tape-before-the-call");
+            }
+            if let Some(df) = o.note("double-free").or(run.note("double-free")) {
+                return Some(Outcome::Fail(Fail { kind: "double-free".into(), detail: format!("{desc} after the refusal {df}"), cfg: None }));
+            }
             match (&o.end, &run.exit) {
                 (End::Returned(_), _) => {
                     // The call came back although a request was refused. That is harmless only if the failure was
